@@ -19,6 +19,9 @@ def run(chk):
     g = vplib.tlc_mc("RandomnessGen", cfg, workers=1, timeout=900)
     seqs = sorted(set(g.tagged_raw_json("S")))
     chk.add_tlc(g, "RandomnessGen", cfg, "NoReuse, SingleConsumer, NotAlsoCached; %d sequences" % len(seqs))
+    if thorough:
+        vplib.coverage_check(chk, "RandomnessGen", "Randomness.mc.quick.cfg", workers=1, timeout=600)
+        vplib.coverage_check(chk, "NonrevCache", "NonrevCache.mc.quick.cfg", ignore=("PMake",), timeout=900)
     mc = "NonrevCache.mc.%s.cfg" % T
     r = vplib.tlc_mc("NonrevCache", mc, timeout=1800)
     chk.add_tlc(r, "NonrevCache", mc, "cache protocol, all interleavings")
